@@ -568,6 +568,12 @@ def r5(ctx: Ctx) -> None:
         rows_iter = comp[3][0][1]
         row = comp[2][0]
         ok = rows_iter == ("c", ("g", "range"), (ly,), ()) and row == (to_poly(("list", (("k", "bool", False),))) * to_poly(lx)).to_s()
+    elif len(sets) == 1 and sets[0][2][0] == "v":
+        # the normal form of a comprehension that is stored: the rows are collected in a local first
+        from .common import collect_of
+        col = collect_of(c, sets[0][2])
+        ok = col is not None and len(col) == 1 and col[0][0] == ("c", ("g", "range"), (ly,), ()) and col[0][3] == K_TRUE \
+            and col[0][2] == (to_poly(("list", (("k", "bool", False),))) * to_poly(lx)).to_s()
     if not ok:
         ctx.report(f.where, "cell-matrix-shape", "the occupancy matrix is not built as (len(_y)-1) rows of (len(_x)-1) columns", lineno=f.node.lineno)
 
